@@ -159,6 +159,23 @@ theorem C12_default_include_keeps_falsy_values (h n : Nat) :
     defaultInclude { hid := h, name := n, status := .completed, value := .dict [] } = true := by
   simp [defaultInclude, Val.isNone, Val.isExc, Val.isEvent]
 
+/-- C12 (and the clause of C11 about returned exception objects): an exception object *returned* by a handler is captured as that handler's error result (with that very
+    object as the error), whatever the declared type and whatever pydantic would say about it. -/
+theorem C12_a_returned_exception_object_is_an_error_result (r : Res) (typed : Bool) (id : Nat) (vd : Option Val) :
+    recordReturn r typed (.exc id) vd = { r with status := .error, err := some (.handler id), value := .none } := by
+  simp [recordReturn]
+
+/-- C12: `None` and a forwarded event are accepted under every declared type, unvalidated and unchanged. -/
+theorem C12_none_and_forwarded_events_are_always_accepted (r : Res) (typed : Bool) (vd : Option Val) (e : Nat) :
+    (recordReturn r typed .none vd).status = .completed ∧ (recordReturn r typed .none vd).value = .none ∧
+    (recordReturn r typed (.event e) vd).status = .completed ∧ (recordReturn r typed (.event e) vd).value = .event e := by
+  cases typed <;> simp [recordReturn, Val.isNone, Val.isEvent]
+
+/-- C12: recording a return value touches nothing but status, value and error of that one result. -/
+theorem C12_recording_keeps_handler_identity (r : Res) (typed : Bool) (ret : Val) (vd : Option Val) :
+    (recordReturn r typed ret vd).hid = r.hid ∧ (recordReturn r typed ret vd).name = r.name := by
+  cases ret <;> cases typed <;> cases vd <;> simp [recordReturn, Val.isNone, Val.isEvent]
+
 /-- non-vacuity: three results, the second an error; default include -/
 example : firstResult [{ hid := 1, name := 1, status := .completed, value := .int 4 },
       { hid := 2, name := 2, status := .error, err := some (.handler 2) },
